@@ -585,6 +585,20 @@ FUZZ_CORPUS = [b"\x00bc1qw508d6qejxtdg4y5r3zarvary0c5xw7kv8f3t4", bytes([2, 0x80
                bytes([2, 0x81]) + bytes([1] + [7] * 52), bytes([1, 3, 0, 0, 18, 1, 2]), bytes([1, 6, 1, 1, 30, 9, 9])]
 
 
+# ---------------------------------------------------------------- first use from several threads
+def _cold_build(it):
+    kind, hrp, ver, n, a, b = it
+    if not R.legal(ver, n):
+        ver, n = (0, 20) if ver == 0 else (ver, 2 + n % 39)
+    prog = prog_bytes(n, a, b)
+    addr = R.segwit_encode(hrp, ver, prog)
+    if kind == "encode":
+        return (["bech32", "encode", [hrp, ver, list(prog)]], addr, "encode(%r, %d, %d bytes)" % (hrp, ver, n))
+    if kind == "decode-upper":
+        return (["bech32", "decode", [hrp, addr.upper()]], [ver, list(prog)], "decode(%r, %r)" % (hrp, addr.upper()))
+    return (["bech32", "decode", [hrp, addr]], [ver, list(prog)], "decode(%r, %r)" % (hrp, addr))
+
+
 def clauses():
     return [
         Clause("encode-decode", check_pair,
@@ -634,4 +648,8 @@ def clauses():
                n={"quick": 3000, "thorough": 100000}, shards={"quick": 2, "thorough": 8},
                fuzz={"runs": {"quick": 20000, "thorough": 800000}, "campaigns": {"quick": 2, "thorough": 8},
                      "max_len": 120, "corpus": FUZZ_CORPUS}),
+        __import__("vlib.cold", fromlist=["x"]).cold_clause(
+            "C11", st.tuples(st.sampled_from(["encode", "decode", "decode-upper"]), st.sampled_from(["bc", "tb", "bcrt"]),
+                             st.integers(0, 16), st.sampled_from([20, 32, 2, 40, 33]), st.integers(0, 255), st.integers(0, 255)),
+            _cold_build, "segwit address encode / decode"),
     ]
